@@ -777,6 +777,44 @@ def run(ctx):
             batch.append((gd.render(gd.gen_type(rng)), "type", "type"))
         process(ctx, batch)
     ctx.sample({"text": "query @live { a }", "printed": real_print(real_parse("query @live { a }")[1], 2)[1]})
+    run_indent_domain(ctx)
+
+
+# the `indent` ARGUMENT outside the sampled settings (print_parse_every_indent_arg quantifies over every int and every
+# string over {space, tab}): negative ints (printed like 0), odd and large widths, mixed strings.  Deterministic block
+# (no rng), run LAST so that it does not move the random streams of the blocks above.
+EXTRA_INDENTS = [-3, -1, 3, 5, 7, 16, 33, " ", " \t ", "\t\t", "\t  ", "  \t  \t"]
+INDENT_PROBE_TEXTS = [
+    ("query Q($v: [Int!] = [1, 2] @d) @live { a: b(x: {k: \"s\", l: [true, null]}) @skip(if: $v) { ...F ... on T { c } } }\n"
+     "fragment F on T { d(t: \"\"\"\n  block\n    deeper\n  \"\"\") }", "document"),
+    ('"""\ndescribed\n  type\n"""\ntype T implements I & J @d(a: 1) { "f" f(a: Int = 3 @x, "b" b: [S!]! = ["q"]): T @deprecated }\n'
+     'extend schema @e { subscription: T }\nenum E { A B @d }\ninput In { a: In = {a: null} }\nunion U @d = | T | V\n'
+     'directive @d("x" a: Int) on FIELD | QUERY', "document"),
+    ('{ a(s: """  lead\n\n   more "\\""" quotes\\\n""") }', "document"),
+]
+
+
+def run_indent_domain(ctx):
+    cases = []
+    for text, entry in INDENT_PROBE_TEXTS:
+        r = real_parse(text, entry)
+        ctx.count()
+        if r[0] != "ok":
+            ctx.stat("indent-domain:probe-rejected")
+            continue
+        for ind in EXTRA_INDENTS:
+            res = oracle(text, ind, entry, tree=r[1])
+            ctx.stat("oracle")
+            ctx.stat("indent-domain:%s" % ("int<0" if isinstance(ind, int) and ind < 0 else "int" if isinstance(ind, int) else "str"))
+            if res is not None:
+                report_property(ctx, text, ind, entry, res)
+            ctx.nontrivial((text, repr(ind)))
+            cases.append((text, ind, True, entry))
+        # a negative width prints exactly like 0 (ASTPrinter.__init__: `indent * " "`)
+        if real_print(r[1], -2) != real_print(r[1], 0):
+            ctx.fail("indent-domain:negative-width-differs-from-zero", "a negative indent width does not print like 0",
+                     {"part": PART, "text": L.cps(text), "indent": -2, "entry": entry}, kind="correspondence")
+    check_corr(ctx, cases)
 
 
 def replay(ctx, data):
